@@ -182,12 +182,18 @@ def filter_respected(ctx):
     n = 0
     def has_filter(d):
         return d[0] == "call" and d[1].endswith("::is_some") and d[2] and atom_has_field(d[2][0], "extensions")
+    def no_filter(d):
+        return d[0] == "call" and d[1].endswith("::is_none") and d[2] and atom_has_field(d[2][0], "extensions")
+    def filtered_region(rv):
+        return guard_region(rv, has_filter, True) | guard_region(rv, no_filter, False)
+    def unfiltered_region(rv):
+        return guard_region(rv, has_filter, False) | guard_region(rv, no_filter, True)
     for ds in delete_sites(ctx):
         b, bb, rv, nb = ds.raw, ds.raw_bb, ds.view, ds.bb
         role = classify_delete_site(ctx, ds)
         if role == "output-filtered":
             n += 1
-            G = guard_region(rv, has_filter, True)
+            G = filtered_region(rv)
             at = rv.prov.operand_atoms(ds.path_op)
             lister_calls = [x for x in atom_callres(at) if x in f.bodies and listers & f.cg.reach([x])]
             ok = nb in G and bool(lister_calls) and ds.api.endswith("remove_file")
@@ -198,6 +204,10 @@ def filter_respected(ctx):
                     a0 = rv.prov.operand_atoms(ct["args"][0], interproc=False)
                     a1 = rv.prov.operand_atoms(ct["args"][1], interproc=False) if len(ct["args"]) > 1 else set()
                     fed = fed or (atom_has_field(a0, "paths") and atom_has_field(a1, "extensions"))
+                    # ... or the resource itself (`list_files_in_resource(resource)`): an element of the output's file resources
+                    l0 = operand_local(ct["args"][0])
+                    if l0 is not None and re.search(r"FilesResource$", rv.locals[l0]["ty"].replace("&", "").strip()) and atom_has_field(rv.prov.operand_atoms(ct["args"][0]), "files"):
+                        fed = True
             ctx.check(ok and fed, f"{short(r.outer_fn(b).name)}/filtered", [site(rv, nb)], "with an extension filter, files are removed that do not come from the lister applied to the resource's paths and extensions (non-matching files would be deleted)")
         elif role == "output-plain":
             n += 1
@@ -210,8 +220,8 @@ def filter_respected(ctx):
                         ok = True
             ctx.check(ok, f"{short(r.outer_fn(b).name)}/{base.split('::')[-1]}", [site(rv, nb)], f"`{base.split('::')[-1]}` is not guarded by `{what}()`")
             # plain cleaning happens where there is no filter
-            Gf = guard_region(rv, has_filter, False)
-            Gt = guard_region(rv, has_filter, True)
+            Gf = unfiltered_region(rv)
+            Gt = filtered_region(rv)
             if Gf or Gt:
                 ctx.check(nb in Gf, f"{short(r.outer_fn(b).name)}/{base.split('::')[-1]}/unfiltered-branch", [site(rv, nb)], "a declared output path is removed wholesale although the resource has an extension filter")
     ctx.need(n >= 3, "deletion sites of the output cleaners")
@@ -271,6 +281,9 @@ def scope(ctx):
                 dir_names.add(nm)
             # ... or carried by a variant of a small local enum (`CleanScope::AllProjects(dirs)`)
             tyn = ty.replace("&", "").replace("mut ", "").strip()
+            mo = re.match(r"std::option::Option<(.*)>$", tyn)
+            if mo:
+                tyn = mo.group(1)
             if tyn in f.adts and f.adts[tyn]["enum"] and any(re.search(r"(Vec|HashSet|BTreeSet)<[\w:]*PathBuf>", fd["ty"]) for v_ in f.adts[tyn]["variants"] for fd in v_["fields"]):
                 dir_names.add(nm)
         return req_names, req_true, req_false, tgt_names, dir_names
@@ -287,6 +300,26 @@ def scope(ctx):
     Mc = guard_region(m, is_clean, True)
     Ms = guard_region(m, m_req("is_some"), True) | guard_region(m, m_req("is_none"), False)
     Mn = guard_region(m, m_req("is_some"), False) | guard_region(m, m_req("is_none"), True)
+    if not Gc:
+        # the flag may also have been folded into an optional value built in main (`let scope = if !clean { None } else { Some(..) }`) and tested in the
+        # block with `if let Some(scope) = scope`: every `Some` that can reach the captured variable is built under a true flag
+        cap0 = None
+        for blk in mraw.normal_blocks():
+            for st in blk["stmts"]:
+                if st["rv"]["k"] == "agg" and st["rv"].get("coroutine") == ma.name:
+                    cap0 = st
+        Rmc = guard_region(mraw, is_clean, True)
+        if cap0 is not None and Rmc:
+            for nm, o in zip(cap0["rv"].get("fields") or [], cap0["rv"]["ops"]):
+                l = operand_local(o)
+                if l is None or not re.search(r"Option<", mraw.locals[l]["ty"]):
+                    continue
+                somes = [bb for (bb, st) in mraw.aggregates("Option", "Some") if l in mraw.prov.flows_forward(st["lhs"]["local"]) or st["lhs"]["local"] == l]
+                if somes and all(bb in Rmc for bb in somes):
+                    for e in ma.edges:
+                        if e.label and e.label[0] == "variant" and e.label[2] == ("Some",) and e.label[3] and (nm in place_fields(e.label[3]) or
+                                origin_matches(edge_origin(ma, e), lambda x: x[0] == "field" and nm in x[1])):
+                            Gc |= ma.dominated_by_edge(e)
     ctx.need(Gc or (siblings and Mc), "region of main guarded by the --clean flag")
     caps = captures(ma.name)
     ctx.need(caps, "construction of main's async block")
@@ -309,9 +342,20 @@ def scope(ctx):
     # (`match values_of(TARGETS) { Some(..) => Scope::Requested, None => Scope::All(dirs) }`): the arms of a match on it are guarded accordingly
     def targets_opt_edge(e, which):
         l_ = e.label
-        return bool(l_ and l_[0] == "variant" and l_[2] == (which,) and
-                    origin_matches(edge_origin(mraw, e), lambda o: o[0] == "call" and re.search(r"ArgMatches::values_of(_lossy)?$", o[1]) is not None and
-                                   any(a[0] == "static" and a[1].endswith("TARGETS") for x in o[3]["args"] for a in mraw.prov.operand_atoms(x))))
+        if l_ and l_[0] == "variant" and l_[2] == (which,) and \
+                origin_matches(edge_origin(mraw, e), lambda o: o[0] == "call" and re.search(r"ArgMatches::values_of(_lossy)?$", o[1]) is not None and
+                               any(a[0] == "static" and a[1].endswith("TARGETS") for x in o[3]["args"] for a in mraw.prov.operand_atoms(x))):
+            return True
+        # `if requested_targets.is_some() { .. }`
+        if l_ and l_[0] == "bool" and l_[2] is not None:
+            for d in bool_atom_desc(mraw, l_[2]):
+                inner, flip = ((d[1], True) if d[0] == "not" else ((d,), False))
+                for x in inner:
+                    if x[0] == "call" and x[2] and is_targets_opt(x[2][0]):
+                        val = l_[1] != flip
+                        if (x[1].endswith("::is_some") and ((which == "Some") == val)) or (x[1].endswith("::is_none") and ((which == "None") == val)):
+                            return True
+        return False
     for ap, adt in f.adts.items():
         if not adt["enum"] or ap.startswith("std::") or ap.startswith("core::"):
             continue
@@ -483,6 +527,7 @@ def inherit(ctx):
     ctx.need(rs, "resolver")
     b = rs[0]
     ext = [(bb, t) for bb, t in b.calls() if "extend_input" in callee_base(t)]
+    ext = [(bb, t) for bb, t in ext if not any("extend_input" in x for x in f.cg.reach([callee_base(t)], cross_spawn=False) - {callee_base(t)})]   # innermost (see C09.OUTPUT-OF-BUILD-ONLY)
     ctx.need(ext, "extend_input call in the resolver")
     for bb, t in ext:
         at = b.prov.operand_atoms(t["args"][1], interproc=False)
@@ -493,7 +538,12 @@ def inherit(ctx):
             if bb in blks:
                 inloop = True
                 exits = [e for bl in blks for e in b.succ.get(bl, ()) if e.dst not in blks and b.term(e.dst)["k"] != "unreachable"]
-                other = [e for e in exits if not (ne is not None and e.src == ne.src and e.dst == ne.dst) and not any(x in (b.reach_from(e.dst) | {e.dst}) for (x, st) in b.aggregates("Result", "Err"))]
+                def is_try_break(e):
+                    # `?` inside the loop: the error of the step is propagated
+                    return bool(e.label and e.label[0] == "variant" and e.label[2] == ("Break",) and path_ends(e.label[1] or "", "ControlFlow")) or \
+                        any(tb_be is not None and e.src == tb_be.src and e.dst == tb_be.dst for (_, _, _, tb_be) in try_edges(b))
+                other = [e for e in exits if not (ne is not None and e.src == ne.src and e.dst == ne.dst) and not is_try_break(e) and
+                         not any(x in (b.reach_from(e.dst) | {e.dst}) for (x, st) in b.aggregates("Result", "Err"))]
                 ctx.check(not other, f"{short(b.name)}/all-producers", [site(b, nbb)], "the loop over `X.output` producers can stop before all of them were inherited")
         ctx.check(inloop, f"{short(b.name)}/loop", [site(b, bb)], "the inheritance is not applied to every `X.output` producer")
     # Resources::extend appends both files and cmds
@@ -514,17 +564,39 @@ def inherit(ctx):
 def bound_to_declarer(ctx):
     f = ctx.f
     n = 0
+    def from_project_dir(body, op, depth=0):
+        """the operand derives from a `project_dir` - here, or (the body being a constructor that takes the directory as a parameter) at every call site"""
+        at = body.prov.operand_atoms(op, interproc=False) if op is not None else set()
+        if any(a[0] == "field" and "project_dir" in a[2] for a in body.prov.operand_atoms(op)) if op is not None else False:
+            return True
+        outer = ctx.r.outer_fn(body)
+        ps = sorted(a[1] for a in at if a[0] == "param")
+        envs = [a[2] for a in at if a[0] == "field" and a[1].startswith("{env of")]
+        names = [outer.locals[i].get("name") for i in range(1, outer.argc + 1)]
+        idx = [i for i in ps if body.name == outer.name] + [names.index(nm) + 1 for nm in envs if nm in names]
+        if any(names[i - 1] == "project_dir" for i in idx if i - 1 < len(names)):
+            return True
+        if not idx or depth > 3:
+            return False
+        sites_ = [(f.bodies[c], cbb) for (c, cbb) in f.cg.call_sites.get(outer.name, ()) if cbb is not None and c in f.bodies and not f.is_derived(f.bodies[c]) and f.bodies[c].term(cbb)["k"] == "call"]
+        if not sites_:
+            return False
+        for (cb, cbb) in sites_:
+            ct = cb.term(cbb)
+            if not any(i - 1 < len(ct["args"]) and from_project_dir(cb, ct["args"][i - 1], depth + 1) for i in idx):
+                return False
+        return True
     for b in f.user_bodies():
         for (bb, st) in b.aggregates("CmdResource"):
             n += 1
-            at = b.prov.operand_atoms(agg_field_op(st, "dir"))
-            ok = any(a[0] == "field" and "project_dir" in a[2] for a in at) or any(a[0] == "param" for a in at) and any("project_dir" == (ctx.r.outer_fn(b).locals[i].get("name")) for i in range(1, ctx.r.outer_fn(b).argc + 1))
+            ok = from_project_dir(b, agg_field_op(st, "dir"))
             ctx.check(ok, f"{short(b.name)}/cmd-dir@{bb}", [site(b, bb)], "a command resource is not bound to the declaring project's directory")
         for (bb, st) in b.aggregates("FilesResource"):
             n += 1
-            at = b.prov.operand_atoms(agg_field_op(st, "paths"))
+            op = agg_field_op(st, "paths")
+            at = b.prov.operand_atoms(op)
             joins = [c for c in atom_callres(at) if c.endswith("Path::join")]
-            ok = (bool(joins) or any(a[0] == "closure" for a in at)) and any(a[0] == "field" and "project_dir" in a[2] for a in at)
+            ok = (bool(joins) or any(a[0] == "closure" for a in at)) and from_project_dir(b, op)
             ctx.check(ok, f"{short(b.name)}/paths@{bb}", [site(b, bb)], "declared paths are not joined to the declaring project's directory")
     ctx.need(n >= 2, f"constructions of FilesResource / CmdResource (found {n})")
     # metadata.project_dir comes from the project entry of the resolved target
@@ -787,7 +859,8 @@ def regular_files(ctx):
             if any(o[0] == "call" and o[1].endswith("Path::is_file") for o in ro) or guard_region(b, lambda d: d[0] == "call" and d[1].endswith("Path::is_file"), True):
                 ok_file = True
         ctx.check(ok_file, f"{short(ln)}/is-file", [site(b, bb) for b, bb in isfile] or [f.bodies[ln].loc()], "the lister keeps entries that are not regular files (directories would be hashed/removed)")
-        pc = [(b, bb) for b, bb, t in calls if callee_base(t) in preds]
+        # (directly, or through a small wrapper - `resource.accepts(&path)`)
+        pc = [(b, bb) for b, bb, t in calls if callee_base(t) in preds or (callee_base(t) in f.bodies and preds & f.cg.reach([callee_base(t)], cross_spawn=False))]
         ctx.check(bool(pc), f"{short(ln)}/extension-filter", [site(b, bb) for b, bb in pc] or [f.bodies[ln].loc()], "the lister does not apply the extension predicate")
         fe = [(b, bb, t) for b, bb, t in calls if t["callee"]["base"].endswith("IntoIter::filter_entry")]
         ok_prune = False
@@ -856,6 +929,13 @@ def normalise(ctx):
             ro = [o for p in enumerate_paths(b)[:20] for o in ret_origins(b, p)]
             if any(o[0] == "not" for o in ro):
                 ok_empty = True
+        if not ok_empty:
+            # loop form: `if ext.is_empty() { continue }` - nothing is put into the result except under a false `is_empty()`
+            for b in bodies:
+                ins = [bb for bb, t in b.calls() if re.search(r"(BTreeSet|HashSet|Vec)::<.*>::(insert|push)$", callee_decl(t))]
+                Gne = guard_region(b, lambda d: d[0] == "call" and re.search(r"(String|str>)::is_empty$", d[1]) is not None, False)
+                if ins and all(bb in Gne for bb in ins):
+                    ok_empty = True
         ctx.check(ok_empty, f"{short(fn.name)}/drop-empty", [site(b, bb) for b, bb in empties] or [fn.loc()], "empty extension entries are not dropped (an empty entry would match every file)")
         dots = [(b, bb, t) for b, bb, t in calls if re.search(r"str>::starts_with", callee_base(t)) and any(const_val(a) == "'.'" or (const_val(a) or "").strip('"') == "." for a in t["args"])]
         ok_dot = False
@@ -890,7 +970,7 @@ def no_panic_lister(ctx):
     f = ctx.f
     roots = set(r.listers()) | {b.name for b in r.extension_predicates()}
     scope = {x for x in f.cg.reach(roots) if x in f.bodies and not f.is_derived(f.bodies[x])}
-    ctx.need(len(scope) >= 8, f"bodies of the lister and the predicate (found {len(scope)})")
+    ctx.need(len(scope) >= 4, f"bodies of the lister and the predicate (found {len(scope)})")
     n = 0
     for x in sorted(scope):
         b = f.bodies[x]
@@ -1279,6 +1359,44 @@ def from_input_list_intact(ctx):
         inner = f.cg.reach(list(tfn), cross_spawn=False)
         spliced = {callee_base(t) for _, t in b.calls() if t.get("inlined") or t.get("inlined_async")}   # their code is part of this view: judged by what it does
         odd += sorted(short(c) for c in atom_callres(it_atoms) if c in f.bodies and c not in tfn and c not in inner and c not in spliced and not f.is_derived(f.bodies[c]))
+        # ... and it is the transformation's own list that is iterated (moved, borrowed, destructured), not a list rebuilt from it by other code - e.g. "the
+        # dependencies that were actually added", which leaves out a producer that is also a declared dependency
+        src = None
+        tn = b.term(nbb)
+        if tn["k"] == "call" and tn["args"] and operand_local(tn["args"][0]) is not None:
+            cands = [operand_local(tn["args"][0])]
+            for kind, x, pb in b.prov.direct_producers(cands[0]):
+                if kind == "expr" and x["rv"]["k"] == "ref":
+                    cands.append(x["rv"]["place"]["local"])   # `&mut iter` (possibly a reborrow)
+            for c_ in cands:
+                for kind, x, pb in b.prov.direct_producers(c_):
+                    if kind == "call" and re.search(r"IntoIterator>?::into_iter$|::iter$|::iter_mut$", callee_base(x)) and x["args"] and operand_local(x["args"][0]) is not None:
+                        src = operand_local(x["args"][0])
+        if src is not None:
+            def flat(o):
+                out = []
+                for y in o:
+                    out.append(y)
+                    if y[0] == "field":
+                        out += flat(y[2])
+                return out
+            fo = flat(origins(b, src))
+            if fo and not any(y[0] == "call" and y[1] in tfn for y in fo):
+                # a fresh vector filled by pushes that sit under a condition inside the filling loop (an element-wise mapping - `try_parse_many(&names)?` - is fine)
+                fresh = [y[3]["dest"]["local"] for y in fo if y[0] == "call" and re.search(r"Vec::<.*>::(new|with_capacity)$", callee_decl(y[3])) and y[3].get("dest")]
+                loops_ = b.natural_loops()
+                for V in fresh:
+                    for pb, pt in b.calls():
+                        if not re.search(r"Vec::<.*>::push$", callee_decl(pt)) or not pt["args"]:
+                            continue
+                        r0 = operand_local(pt["args"][0])
+                        tg = {r0} | {st2["rv"]["place"]["local"] for k2, st2, _ in b.prov.defs.get(r0, ()) if k2 == "assign" and st2["rv"]["k"] == "ref"}
+                        if V not in tg:
+                            continue
+                        inner = [blks_ for (h_, blks_, ex_) in loops_ if pb in blks_]
+                        conds = [e for e in b.edges if e.label and e.label[0] == "bool" and pb in b.dominated_by_edge(e) and any(e.src in blks_ for blks_ in inner)]
+                        if conds:
+                            odd.append("a list rebuilt from the transformation's result with conditional pushes")
         ctx.check(not odd, f"{short(b.name)}/loop-over-whole-list", [site(b, nbb)], f"the inheritance loop ranges over a filtered list ({odd}): some `X.output` producer is neither validated nor inherited", props=["C13", "C09", "C02"])
     ctx.check(ok, f"{short(b.name)}/loop", [b.loc()], "no loop over the `X.output` producers that extends the consumer's input", props=["C13", "C09", "C02"])
     # upstream of the resolver: every place that obtains (resources, producers) from the input transformation hands the producers on - a target kind
